@@ -1,4 +1,116 @@
-import GooseVerif.Model.Fs
+/-
+C12 — MemFs ≡ DirFs ≡ reference model on all valid histories.
+
+Property theorems only (helpers: `Lemmas/MemFs.lean`). `Ref` (Model/Fs.lean) is the reference
+model of the property statement. `MemFs` (Model/MemFs.lean) and `DirFs` over the OS model
+(Model/DirFs.lean) are hand-written from mem.go / dir.go; `facts_ok` pins every declaration of
+package filesys (canonical text, system calls with evaluated flags) to what they were written from.
+-/
+import GooseVerif.Lemmas.MemFs
+import GooseVerif.Model.DirFs
+import GooseVerif.Gen.FsFacts
+import GooseVerif.Expected.FsFacts
+
 namespace GooseVerif.Props.C12
-theorem placeholder : True := trivial
+open GooseVerif.Model.Fs GooseVerif
+
+/-- T-gen obligation: machine/filesys is what the models were written from. -/
+theorem facts_ok : Gen.Fs.fsDecls = Expected.Fs.fsDecls ∧ Gen.Fs.fsCalls = Expected.Fs.fsCalls := ⟨rfl, rfl⟩
+
+/-- MemFs refines the reference model: on every valid history (no documented precondition is
+violated) it returns exactly the reference model's results, descriptors renamed `k ↦ k+1`. -/
+theorem memfs_refines (ops : List Op) (hv : Ref.valid Ref.empty ops = true) :
+    (MemFs.empty.run (ops.map shiftOp)).2 = (Ref.empty.run ops).2.map shiftOut := by
+  have h : ∀ o ∈ (Ref.empty.run ops).2, o ≠ .invalid := by
+    intro o ho heq
+    simp only [Ref.valid, Bool.not_eq_true', List.contains_eq_mem, decide_eq_false_iff_not] at hv
+    exact hv (heq ▸ ho)
+  exact (mem_run_sim ops _ _ memSim_empty h).1
+
+/-! ### what the reference model promises (the clauses of the property, on `Ref`) -/
+
+/-- Create fails without side effects iff the name exists. -/
+theorem create_exclusive (s : Ref) (d n : String) (hd : s.dirs.contains d = true) :
+    (s.lookup d n).isSome = true ↔ s.step (.create d n) = (s, .nofd) := by
+  simp only [Ref.step, hd, Bool.not_true, Bool.false_eq_true, ↓reduceIte]
+  cases h : s.lookup d n with
+  | none => simp
+  | some ino => simp
+
+/-- Every Create/Open yields a fresh descriptor: never one that is currently open. -/
+theorem descriptors_fresh (s : Ref) (hwf : ∀ e ∈ s.fds, e.1 < s.nfds) (op : Op) (k : Nat)
+    (h : (s.step op).2 = .fd k) : aget s.fds k = none := by
+  have hk : k = s.nfds := by
+    cases op <;> simp only [Ref.step] at h <;> (repeat' split at h) <;> simp_all
+  subst hk
+  cases hg : aget s.fds s.nfds with
+  | none => rfl
+  | some v =>
+    obtain ⟨k', hk'⟩ := aget_mem _ _ _ hg
+    simp only [aget, Option.map_eq_some_iff] at hg
+    obtain ⟨e, he, _⟩ := hg
+    have hm := List.mem_of_find?_eq_some he
+    have hkey := List.find?_some he
+    have := hwf e hm
+    simp at hkey
+    omega
+
+/-- Hard links share contents: after a successful Link both names denote the same inode. -/
+theorem link_shares (s : Ref) (od on nd nn : String) (h : (s.step (.link od on nd nn)).2 = .bool true) :
+    (s.step (.link od on nd nn)).1.lookup nd nn = s.lookup od on ∧ (s.lookup od on).isSome = true := by
+  simp only [Ref.step] at h ⊢
+  by_cases hc : (!s.dirs.contains od || !s.dirs.contains nd) = true
+  · rw [if_pos hc] at h; cases h
+  · rw [if_neg hc] at h ⊢
+    cases hl : s.lookup od on with
+    | none => simp [hl] at h
+    | some ino =>
+      simp only [hl] at h ⊢
+      cases hl2 : s.lookup nd nn with
+      | some _ => simp [hl2] at h
+      | none =>
+        simp only [Ref.lookup, Option.isSome_some, and_true]
+        exact aget_aset_same (κ := String × String) _ _ _
+
+/-- A deleted file stays readable through open descriptors: Delete changes neither the
+descriptor table nor any inode. -/
+theorem delete_keeps_open (s : Ref) (d n : String) :
+    (s.step (.delete d n)).1.fds = s.fds ∧ (s.step (.delete d n)).1.inodes = s.inodes := by
+  simp only [Ref.step]; split <;> simp
+
+/-- ReadAt returns exactly the bytes of `[off, off+len)` that exist. -/
+theorem readat_exact (data : Bytes) (off len : Nat) :
+    (readRange data off len).length = min len (data.length - off) ∧
+    ∀ i, i < (readRange data off len).length → (readRange data off len)[i]? = data[off + i]? := by
+  constructor
+  · simp [readRange]
+  · intro i hi
+    simp only [readRange, List.length_take, List.length_drop] at hi
+    simp only [readRange, List.getElem?_take, List.getElem?_drop]
+    rw [if_pos (by omega)]
+
+/-- List returns exactly the names in that directory (as a sorted list). -/
+theorem list_exact (s : Ref) (d n : String) (hd : s.dirs.contains d = true) :
+    ∃ ns, (s.step (.list d)).2 = .names ns ∧ (n ∈ ns ↔ ∃ ino, ((d, n), ino) ∈ s.dirents) := by
+  have hmem : d ∈ s.dirs := by simpa using hd
+  refine ⟨namesIn s.dirents d, by simp [Ref.step, hmem], ?_⟩
+  simp only [namesIn, sortNames, List.mem_mergeSort, List.mem_map, List.mem_filter]
+  constructor
+  · rintro ⟨e, ⟨he, hde⟩, rfl⟩
+    refine ⟨e.2, ?_⟩
+    have : e.1.1 = d := by simpa using hde
+    rw [← this]; exact he
+  · rintro ⟨ino, h⟩
+    exact ⟨((d, n), ino), ⟨h, by simp⟩, rfl⟩
+
+/-! ### non-vacuity -/
+
+example : Ref.valid Ref.empty
+    [.mkdir "d", .create "d" "a", .append 0 [1, 2, 3], .open_ "d" "a", .readAt 1 1 5, .delete "d" "a", .readAt 1 0 2] = true := by decide
+example : (Ref.empty.run
+    [.mkdir "d", .create "d" "a", .append 0 [1, 2, 3], .open_ "d" "a", .readAt 1 1 5, .delete "d" "a", .readAt 1 0 2]).2
+    = [.ok, .fd 0, .ok, .fd 1, .bytes [2, 3], .ok, .bytes [1, 2]] := by decide
+example : (MemFs.empty.run ([.mkdir "d", .create "d" "a", .append 0 [1, 2, 3], .open_ "d" "a", .readAt 1 1 5].map shiftOp)).2
+    = [.ok, .fd 1, .ok, .fd 2, .bytes [2, 3]] := by decide
+
 end GooseVerif.Props.C12
